@@ -192,6 +192,18 @@ def run(ctx):
                         good = True
                     has_range = any(isinstance(x, ast.Call) and norm(x.func) == "range" for x in ast.walk(e))
                     res.add("K-VID", f, norm(gc.node), "one-vertex-per-edge", "ok" if good else ("violation" if has_range else "unknown"), "" if good else "the line graph does not get exactly one vertex per hyperedge id", loc(v.fi, gc.node))
+            # the vertices are 0..m-1: the ids must then be a numbering made right here (enumerate / a counter), not
+            # a table owned by the hypergraph (its internal edge ids are not compact after removals)
+            has_range_vertices = any(gc.meth == "add_nodes_from" and gc.vargs and any(isinstance(x, ast.Call) and norm(x.func) == "range" for x in ast.walk(v.inline(gc.vargs[0]))) for gc in gcalls)
+            hparam = v.fi.params[0].arg if v.fi.params else "h"
+            for tname in (inv, id2obj):
+                if tname is None:
+                    continue
+                for n in walk_no_nested(v.fi.node):
+                    if isinstance(n, ast.Assign) and isinstance(n.targets[0], ast.Name) and n.targets[0].id == tname and isinstance(n.value, (ast.Call, ast.Attribute)):
+                        src = n.value.func if isinstance(n.value, ast.Call) else n.value
+                        if isinstance(src, ast.Attribute) and norm(src.value) == hparam and has_range_vertices and src.attr not in ("get_edges", "get_nodes"):
+                            res.violation("K-VID", f, norm(n), "ids=0..m-1", f"the vertex set is range(len({hparam})) but the hyperedge ids are taken from `{norm(n.value)}`: the hypergraph's own ids are not 0..m-1 once a hyperedge was removed, so vertices without hyperedge appear and hyperedges lose their vertex", loc(v.fi, n))
             _check_returns_id_table(res, v, "the line graph does not return the id->hyperedge table")
         for d in ("projections.line_graph", "projections.clique_projection"):
             with res.guard(f"pair enumeration of {d}"):
